@@ -17,6 +17,7 @@ IR
             | ("C", [Node])               <%call expr="wrap()">..</%call>        (error grid only)
             | ("CN", [Node])              <%self:wrap>..</%self:wrap>            (error grid only)
             | ("INC", uri)                <%include file="uri"/>                 (family K)
+    a "D" node may carry a fifth element and a named "B" node a fourth one: True = cached="True" (family M)
 
 Reference semantics (DESIGN.md appendix A5, restating the property statement)
     render(main) follows the inherit targets main = L0 -> L1 -> .. -> Lk (a dynamic target is a Python expression
@@ -26,7 +27,9 @@ Reference semantics (DESIGN.md appendix A5, restating the property statement)
     same over module attributes.  A named block written in Li writes, at its position, self.X() iff no level
     i+1..k declares a member X; an anonymous block runs in place (a closure).  body(**kw) binds kw to the target's
     <%page args>.  <%include> (appendix A6): the target is rendered in place as a chain of its own - fresh self / local,
-    its own parent / next, nothing of the includer's chain, no page arguments.  Expressions are evaluated by Python's eval() in an environment made of the render context, these
+    its own parent / next, nothing of the includer's chain, no page arguments.  A cached def / block (appendix A7)
+    belongs to the template it is written in: its first output for (that template, its name) is stored and written
+    again by every later call, in this render and in later renders that see the same cache.  Expressions are evaluated by Python's eval() in an environment made of the render context, these
     four views, `context` and the page arguments of the running body; a def call writes in place and returns ''.
 """
 
@@ -45,11 +48,11 @@ def print_nodes(nodes, out):
         elif k == "E":
             out.append("${" + nd[1] + "}")
         elif k == "D":
-            out.append('<%%def name="%s(%s)">' % (nd[1], nd[3] if len(nd) > 3 else ""))
+            out.append('<%%def name="%s(%s)"%s>' % (nd[1], nd[3] if len(nd) > 3 else "", ' cached="True"' if len(nd) > 4 and nd[4] else ""))
             print_nodes(nd[2], out)
             out.append("</%def>")
         elif k == "B":
-            out.append('<%%block name="%s">' % nd[1] if nd[1] is not None else "<%block>")
+            out.append(('<%%block name="%s"%s>' % (nd[1], ' cached="True"' if len(nd) > 3 and nd[3] else "")) if nd[1] is not None else "<%block>")
             print_nodes(nd[2], out)
             out.append("</%block>")
         elif k == "IF":
@@ -172,7 +175,8 @@ class _View:
 
 
 class Reference:
-    def __init__(self, prog, ctx, out=None):
+    def __init__(self, prog, ctx, out=None, cache=None):
+        self.cache = {} if cache is None else cache  # (uri of the declaring template, member name) -> stored text
         self.ctx = dict(ctx)
         self.files = prog["files"]
         self.out = [] if out is None else out
@@ -275,11 +279,24 @@ class Reference:
                 # reached from a named-block position, which forwards the page's keyword arguments: a def that
                 # does not accept them cannot stand in for a block; what then happens is not fixed by the statement
                 raise RefDontCare()
+            cached = (len(nd) > 4 and nd[4]) if nd[0] == "D" else (len(nd) > 3 and nd[3])
+            ck = (self.levels[i]["uri"], nd[1])
+            if cached and ck in self.cache:
+                self.out.append(self.cache[ck])
+                return ""
             self._enter()
+            saved = self.out
+            if cached:
+                self.out = []  # the section runs into a buffer of its own; an exception discards it
             try:
                 self.run(nd[2], i, {}, kw if nd[0] == "B" else {})
+                if cached:
+                    self.cache[ck] = "".join(self.out)
             finally:
+                self.out = saved
                 self.depth -= 1
+            if cached:
+                self.out.append(self.cache[ck])
             return ""
 
         return member
@@ -312,7 +329,7 @@ class Reference:
             elif k == "INC":
                 # a chain of its own, rendered in place: nothing of this chain's self / parent / next reaches it
                 target = nd[1] if nd[1].startswith("/") else posixpath.join(posixpath.dirname(self.levels[i]["uri"]), nd[1])
-                sub = Reference({"files": self.files, "main": target}, self.ctx, out=out)
+                sub = Reference({"files": self.files, "main": target}, self.ctx, out=out, cache=self.cache)
                 self.included_callables += sub.callables + sub.included_callables
                 try:
                     sub.body_callable(sub.k)()
@@ -363,8 +380,8 @@ class Reference:
         return ("out", "".join(self.out))
 
 
-def reference(prog, ctx):
-    r = Reference(prog, ctx)
+def reference(prog, ctx, cache=None):
+    r = Reference(prog, ctx, cache=cache)
     return r.render(), r
 
 
@@ -431,6 +448,7 @@ def alphabet(seed):
 # spec = (m1, m2, nest, attr, page, anon, inh, cc)
 #   m1, m2 : '-' absent | 'd' def | 'dp' def calling parent.m() | 'dn' def calling next.m()
 #            | 'b' named block | 'bp' named block calling parent.m()
+#            | 'dc' 'dpc' 'bc' 'bpc' the same with cached="True" (family M)
 #   nest   : 1 = m2's block is written inside m1's block (both must be blocks)
 #   attr   : 0 absent | 1 = module attribute present, a string naming its level | a literal written out
 #            ("None", "0", "''", "False", "[]": family H)
@@ -457,6 +475,10 @@ def member_node(kind, name, i, fill, inner, sig=""):
         return ("D", name, [("T", "(" + tag + "^"), ("E", "parent.%s()" % name)] + inner + [("T", ")")], sig)
     if kind == "dn":
         return ("D", name, [("T", "(" + tag + "~"), ("E", "next.%s()" % name)] + inner + [("T", ")")], sig)
+    if kind.endswith("c"):
+        # cached="True" variants: dc, dpc, bc, bpc
+        nd = member_node(kind[:-1], name, i, fill, inner, sig)
+        return nd + (True,)
     if kind == "b":
         return ("B", name, [("T", "{" + tag)] + inner + [("T", "}")])
     if kind == "bp":
@@ -670,7 +692,7 @@ def chain_valid(chain):
         for m in (m1, m2):
             if m == "dn" and i == 0:
                 return False
-            if m in ("dp", "bp") and (i == L - 1 or inh in ("n", "N")):
+            if m in ("dp", "bp", "dpc", "bpc") and (i == L - 1 or inh in ("n", "N")):
                 return False
         if nest and not (m1 in BLOCKS and m2 in BLOCKS):
             return False
@@ -842,6 +864,21 @@ def grid_entry(L, fam="I"):
     return (fam, L, opts, PROBES_ENTRY, "")
 
 
+CACHED_KINDS = ("-", "d", "dc", "dpc", "b", "bc", "bpc")
+
+
+def grid_cached(L, fam="M"):
+    """family M: one member name, at every level absent / def / cached def / cached def calling parent / block /
+    cached block / cached block calling parent; reached through self, local, parent, next from every body; rendered
+    twice on one lookup with the cache kept"""
+    opts = []
+    for i in range(L):
+        pos = _pos(i, L)
+        kinds = [k for k in CACHED_KINDS if not (k in ("dpc", "bpc") and pos in ("only", "base"))]
+        opts.append([(m1, "-", 0, 0, 0, 0, "s", cc) for m1 in kinds for cc in _cc(pos, ("-", "n"))])
+    return (fam, L, opts, PROBES_M1, "**kw")
+
+
 PROBES_INCLUDE = [("self", "m1"), ("local", "m1"), ("parent", "m1"), ("ctx", "parent"), ("ctx", "next")]
 
 
@@ -925,12 +962,15 @@ def grids(tier):
         g.append(grid_attr_values(L))
     for L in (1, 2, 3):
         g.append(grid_entry(L))
+    for L in (1, 2, 3):
+        g.append(grid_cached(L))
     for Li, p in ((1, 0), (2, 0), (2, 1)):
         for Lc in (1, 2):
             g.append(grid_including(Li, p, Lc))
     g.append(grid_placed(3, True))
     g.append(grid_placed(4, tier == "thorough"))
     if tier == "thorough":
+        g.append(grid_cached(4))
         for p in (0, 1, 2):
             for Lc in (1, 2, 3):
                 g.append(grid_including(3, p, Lc))
@@ -1052,3 +1092,42 @@ def grid_cases(tier):
             for same in (True, False):
                 out.append(("anon2", p, q, same))
     return out
+
+
+# --------------------------------------------------------------------------
+# family L: chains in several directories of one lookup whose (directory, relative target) strings resemble each other
+
+DIR_FRAGMENTS = [("a", "b"), ("x", "y"), ("p", "q"), ("m", "n")]
+
+
+def collision_program(seed):
+    """two- and three-level chains; the level that names its parent relatively lives in one of the directories
+    /, /a, /a/b, /ab and writes one of the targets b.html, ab.html, bb.html, a/b.html - so that directory and target,
+    written one after the other, coincide for different pairs ("/" + "ab.html" and "/a" + "b.html"; "/a" + "bb.html" and
+    "/ab" + "b.html") and the same target is written in different directories.  Returns (program, [main uri, ..])"""
+    a, b = DIR_FRAGMENTS[seed % 4]
+    al = alphabet(seed)
+    n1 = al["n1"]
+    dirs = ["", "/" + a, "/" + a + "/" + b, "/" + a + b]
+    targets = [b + ".html", a + b + ".html", b + b + ".html", a + "/" + b + ".html"]
+    files, mains = {}, []
+    baseno = {}
+    for di, d in enumerate(dirs):
+        for ti, t in enumerate(targets):
+            base = posixpath.join(d + "/", t)
+            if base not in baseno:
+                baseno[base] = len(baseno)
+                k = baseno[base]
+                files[base] = {"page": None, "inherit": None, "attrs": [], "body": [("T", "[BASE%d" % k), ("D", n1, [("T", "(%s@base%d)" % (n1, k))], ""), ("T", "|"), ("E", "next.body()"), ("T", " self.%s=" % n1), ("E", "P(self, %r)" % n1), ("T", "]")]}
+            tag = "%d.%d" % (di, ti)
+            # two levels: the leaf itself names the base relatively
+            leaf = d + "/leaf%d.html" % ti
+            files[leaf] = {"page": None, "inherit": ("s", t), "attrs": [], "body": [("T", "[LEAF" + tag), ("T", " parent.%s=" % n1), ("E", "P(parent, %r)" % n1), ("T", "]")]}
+            mains.append(leaf)
+            # three levels: a leaf in another directory names the middle template absolutely, the middle one names the base relatively
+            mid = d + "/mid%d.html" % ti
+            files[mid] = {"page": None, "inherit": ("s", t), "attrs": [], "body": [("T", "[MID" + tag + "|"), ("E", "next.body()"), ("T", " parent.%s=" % n1), ("E", "P(parent, %r)" % n1), ("T", "]")]}
+            top = dirs[(di + 1) % len(dirs)] + "/top%d_%d.html" % (di, ti)
+            files[top] = {"page": None, "inherit": ("s", mid), "attrs": [], "body": [("T", "[TOP" + tag), ("T", " parent.%s=" % n1), ("E", "P(parent, %r)" % n1), ("T", "]")]}
+            mains.append(top)
+    return {"files": files, "main": mains[0], "ctx": {"P": "@helper:P", "A": "@helper:A"}}, mains
